@@ -27,6 +27,15 @@ def main():
     if tier not in ("quick", "thorough"):
         tier = "quick"
     seed = int(os.environ.get("VERIF_SEED", "0") or 0)
+    replay = None
+    if args.replay:
+        # a replay file records the seed and the tier of the run that wrote it: every random choice of a run is
+        # derived from that one seed, so re-running the batch with it reproduces the recorded case (checks that
+        # implement a single-case replay additionally get the case through ctx.replay)
+        with open(args.replay) as f:
+            replay = json.load(f)
+        seed = int(replay.get("seed", seed))
+        tier = replay.get("tier", tier)
     pid = args.prop.upper()
     mod = importlib.import_module("props." + pid.lower())
     rep = core.Report(pid, tier, seed)
@@ -47,10 +56,7 @@ def main():
     ctx = Ctx()
     ctx.rep, ctx.tier, ctx.seed, ctx.rng = rep, tier, seed, random.Random(seed * 7919 + 17)
     ctx.thorough = tier == "thorough"
-    ctx.replay = None
-    if args.replay:
-        with open(args.replay) as f:
-            ctx.replay = json.load(f)
+    ctx.replay = replay
     try:
         with core.Scratch() as sc:
             ctx.scratch = sc
